@@ -12,15 +12,25 @@ OPTS = {'quick': {'late_started': True, 'sweep_windows': False}, 'thorough': {'j
 
 
 def check(tier, seed, procs):
+    # statement-level interleavings of the lifecycle procedures (vf/txpairs.py): two overlapping completion reports of one
+    # attempt, a completion racing a cancel / a commit ...; every interleaving must end like some serial order
+    from vf import txpairs
+
+    phase = txpairs.run_phase(tier, procs, ('C01', 'C06', 'C41'))
     depth = 5 if tier == 'quick' else 8
     res = bf.run(MONITORS, base.setups(tier), tier, depth, procs, opts=OPTS[tier], time_budget=55 if tier == 'quick' else 900)
     cov = bf.coverage(res, f'1 batch, update 1 committed (2-3 jobs, 1-2 nested groups), update 2 submitted step by step '
                            f'(1-2 jobs, 0-1 groups, 1-2 bunches; one setup: batch already complete + group-only update), 2 pool instances, depth {depth}; monitors {MONITORS}')
-    return {'coverage': cov, 'violations': res.violations, 'assumptions': bf.ASSUME,
-            'vacuous': None if res.states > 100 else f'only {res.states} states'}
+    out = {'coverage': cov, 'violations': res.violations, 'assumptions': bf.ASSUME,
+           'vacuous': None if res.states > 100 else f'only {res.states} states'}
+    return txpairs.merge_into(out, phase)
 
 
 def replay(obj):
+    if 'txpair' in obj:
+        from vf import txpairs
+
+        return txpairs.replay(obj)
     from vf import dbmc
 
     v = dbmc.replay_history(bf.Family, (sorted(MONITORS), base.setups('thorough'), 'thorough', OPTS['thorough']), obj['history'])
